@@ -12,6 +12,11 @@ class MsgPackPacket(packet.Packet):
     def decode(self, encoded_packet):
         """Decode a transmitted package."""
         decoded = msgpack.loads(encoded_packet)
+        if type(decoded['type']) is not int or not isinstance(
+                decoded['nsp'], (str, type(None))):
+            # (the fields arrive as they were packed: 2.0 or true would pass
+            # for a packet type, any falsy value for the default namespace)
+            raise ValueError('Invalid packet.')
         self.packet_type = decoded['type']
         self.data = decoded.get('data')
         self.id = decoded.get('id')
